@@ -244,7 +244,7 @@ class SolutionFile(Bounded):
     def native_inputs(self, case, alphabet, maxlen, rng, extra=0):
         subsets = [list(c) for n in range(1, 4) for c in _it.combinations(self.NAMES, n)]
         for runs in _it.product(range(len(subsets)), repeat=2):
-            for default in (False, True):
+            for default in (False, True, 'hook'):
                 yield {'runs': [subsets[i] for i in runs], 'set_default': default}
 
     def native_check(self, case, raw):
@@ -267,7 +267,15 @@ class SolutionFile(Bounded):
                     p = MS.Project(Env(), n, dependencies=list(made))     # depends on every earlier project
                     sol[n] = p
                     made.append(p)
-                if raw['set_default']:
+                if raw['set_default'] == 'hook':
+                    # the real post-rules hook, with an explicit default and (different) fallback defaults
+                    from bfg9000.builtins.default import msbuild_default
+
+                    class Defaults:
+                        default_outputs = [names[0]]
+                        fallback_defaults = list(names)
+                    msbuild_default({'defaults': Defaults}, sol, None)
+                elif raw['set_default']:
                     sol.set_default(names[-1])
                 out = io.StringIO()
                 sol.write(out)
@@ -381,5 +389,54 @@ class UuidRuns(Bounded):
         return True
 
 
+
+class ShellListWrap(Bounded):
+    """A shell command line (shell_list: it contains shell operators such as `>` or `&&`) handed to the ninja backend
+    keeps that marker through NinjaFile._convert_args, also when a tool command object is part of it, and is then
+    written behind `cmd /s /c "` ... `"` on Windows (platform reported as Windows for this run); a plain argument
+    list is never wrapped."""
+    target = 'bfg9000/tools/common.py::Command.convert_args'
+    properties = ('C20',)
+    reason = 'depends on the reported platform family and on tool objects: runtime contract only'
+
+    def native_inputs(self, case, alphabet, maxlen, rng, extra=0):
+        for with_tool in (False, True):
+            for shelly in (False, True):
+                yield {'tool_in_line': with_tool, 'shell_list': shelly}
+
+    def native_check(self, case, raw):
+        import io
+        from unittest import mock
+        import bfg9000.backends.ninja.syntax as nsyn
+        import bfg9000.shell as bshell
+        from bfg9000.shell.list import shell_list
+        from bfg9000.safe_str import shell_literal
+        from bfg9000.tools.common import Command
+
+        class Tool(Command):
+            def __init__(self):
+                self.command_var, self.command, self.found = 'gzip', ['gzip'], True
+                self.rule_name = 'gzip'
+        head = [Tool()] if raw['tool_in_line'] else ['gzip']
+        line = head + ['-c', 'in file', shell_literal('>'), 'out']
+        if raw['shell_list']:
+            line = shell_list(line)
+        nf = nsyn.NinjaFile('build.bfg')
+        conv = nf._convert_args(line)
+        if isinstance(conv, shell_list) != raw['shell_list']:
+            return self.fail(case, raw, 'shell_list_marker_kept_by_convert_args', got=type(conv).__name__)
+
+        class Win:
+            family = 'windows'
+        buf = io.StringIO()
+        with mock.patch.object(nsyn, 'platform_info', return_value=Win):
+            nsyn.Writer(buf, {}, bshell).write_shell(conv, can_wrap=True)
+        text = buf.getvalue()
+        wrapped = text.startswith('cmd /s /c "') and text.endswith('"')
+        if wrapped != raw['shell_list']:
+            return self.fail(case, raw, 'shell_lists_and_only_they_are_wrapped_for_cmd', text=text)
+        return True
+
+
 def registry():
-    return [QuoteInfo(), UuidGetItem(), SetUuid(), WinJoinSplit(), UuidRuns(), SolutionFile()]
+    return [QuoteInfo(), UuidGetItem(), SetUuid(), WinJoinSplit(), UuidRuns(), SolutionFile(), ShellListWrap()]
